@@ -28,6 +28,9 @@ OP_DOC = {"A": "re-assemble with new symbols", "L": "add a Lagrange condition (c
           "M": "replace the mesh", "D": "change dofs per node", "B": "a boundary group starts/stops contributing (user subclass)"}
 
 
+IMAG_SCALE = [Fraction(1)]  # per job: range of the imaginary parts ('tiny imaginary part' configurations: 2^-40, a lightly damped / small-unit problem)
+
+
 def fresh_mats(simu, tag, complex_=False, drop_M=(), F_flat=False):
     """fresh symbols for every active group of the simulation"""
     c = ctx()
@@ -39,7 +42,7 @@ def fresh_mats(simu, tag, complex_=False, drop_M=(), F_flat=False):
         def arr(name, shape):
             a = sym_array(f"{tag}{g.elemType}{name}", shape)
             if complex_:
-                b = sym_array(f"{tag}{g.elemType}{name}i", shape)
+                b = sym_array(f"{tag}{g.elemType}{name}i", shape, -IMAG_SCALE[0], IMAG_SCALE[0])
                 out = np.empty(shape, dtype=object)
                 for idx in np.ndindex(*shape):
                     out[idx] = CSym(a[idx], b[idx])
@@ -162,6 +165,8 @@ def concrete_replay(cfg):
 
     bad = [0.0]
 
+    isc = float(cfg.get("imag_scale", 1.0))
+
     def run():
         simu, state = build(cfg)
         steps = ["A"] + list(cfg["history"])
@@ -173,11 +178,11 @@ def concrete_replay(cfg):
                 for et, mats_ in simu.mats.items():
                     for X in mats_:
                         if X is not None:
-                            X[...] = rng.uniform(-1, 1, X.shape) + (1j * rng.uniform(-1, 1, X.shape) if cfg.get("complex") else 0)
+                            X[...] = rng.uniform(-1, 1, X.shape) + (1j * isc * rng.uniform(-1, 1, X.shape) if cfg.get("complex") else 0)
                 groups = []
             for g in groups:
                 nd = g.nPe * dof_n
-                mk = lambda sh: rng.uniform(-1, 1, sh) + (1j * rng.uniform(-1, 1, sh) if cfg.get("complex") else 0)
+                mk = lambda sh: rng.uniform(-1, 1, sh) + (1j * isc * rng.uniform(-1, 1, sh) if cfg.get("complex") else 0)
                 simu.mats[g.elemType] = (mk((g.Ne, nd, nd)), mk((g.Ne, nd, nd)), None if g.elemType in state["drop_M"] else mk((g.Ne, nd, nd)), mk((g.Ne, nd, 1)))
             simu.Need_Update()
             pt = simu.problemType
@@ -189,7 +194,7 @@ def concrete_replay(cfg):
                 ref = np.zeros(A.shape, dtype=complex)
                 for (r, cc), v in orc[s].items():
                     ref[r, cc] += v
-                bad[0] = max(bad[0], float(np.abs(A - ref).max()))
+                bad[0] = max(bad[0], float(np.abs(A.real - ref.real).max()), float(np.abs(np.imag(A) - ref.imag).max()) / isc)
 
     run()
     return bad[0] > 1e-10, {"max_abs_difference_assembly_vs_scatter_add": bad[0], "history": "A" + "".join(cfg["history"])}
@@ -304,9 +309,10 @@ def job(cfg):
     res = JobResult(cfg)
     new_context()
     facade.install()
+    IMAG_SCALE[0] = Fraction(cfg.get("imag_scale", 1))
     simu, state = build(cfg)
     steps = ["A"] + list(cfg["history"])
-    label0 = f"{cfg['mesh']} dof_n={cfg['dof_n']}" + (" complex" if cfg.get("complex") else "") + (" renumbered" if cfg.get("perm") else "")
+    label0 = f"{cfg['mesh']} dof_n={cfg['dof_n']}" + (" complex" if cfg.get("complex") else "") + (" with imaginary parts below 2^-40" if cfg.get("imag_scale") else "") + (" renumbered" if cfg.get("perm") else "")
     res.functions |= {"_Simu.Assembly", "_Simu.__Assemble_csr", "_Simu.__Get_csr_map", "_GroupElem.Get_rows_e", "_GroupElem.Get_columns_e",
                       "_GroupElem.Get_assembly_e", "_GroupElem._Get_assembly_e", "_Simu.Get_K_C_M_F", "_Simu._Bc_Add_Lagrange", "_Simu.mesh (setter)",
                       "Utilities._cache.cache_computed_values"}
@@ -376,6 +382,9 @@ def main():
         configs.append({"mesh": mesh, "dof_n": dn, "history": [], "perm": perm})
     configs.append({"mesh": "mixed", "dof_n": 1, "history": ["A"], "complex": True})
     configs.append({"mesh": "tri4", "dof_n": 2, "history": ["B", "G"], "complex": True})
+    # complex systems whose imaginary parts are tiny in absolute value (every assembled imaginary entry below 1e-11)
+    configs.append({"mesh": "mixed", "dof_n": 1, "history": ["A"], "complex": True, "imag_scale": 2.0 ** -40})
+    configs.append({"mesh": "tri4", "dof_n": 1, "history": ["G"], "complex": True, "imag_scale": 2.0 ** -40})
     configs.append({"mesh": "tri4", "dof_n": 2, "history": ["B", "B", "A"]})
     configs.append({"mesh": "mixed", "dof_n": 1, "history": ["B", "B", "I"]})
     # heterogeneous dtypes across the groups of one slot (every order)
